@@ -1613,6 +1613,14 @@ class Sim:
             return "rejected:ValueError"
         if st == "exc":
             self.fail("result:raised", kind=k, op=name, got=exc_name(val), msg=str(val)[:200])
+        try:
+            return self._compare_result(rec, name, val, rep, k)
+        except (AttributeError, TypeError, ValueError, KeyError, IndexError) as e:
+            # the returned object is not what the getter documents (None, another type, another shape): it cannot even be
+            # compared with what the program produced
+            self.fail("result:cannot-interpret", kind=k, op=name, got=type(val).__name__, why=f"{exc_name(e)}: {e}"[:200])
+
+    def _compare_result(self, rec, name, val, rep, k):
         n = len(rec.seqs)
         if name == "get_alignment":
             ali = val
